@@ -35,7 +35,7 @@ use crate::{
         fingerprint::data_plane::DpPathFingerprint,
         metadata::{
             geo::GeoCoordinates,
-            link::{LinkMeta, LinkType},
+            link::LinkMeta,
             path_interface::PathInterface,
         },
     },
@@ -471,7 +471,7 @@ impl ScionPath {
                 expiration,
                 mtu,
                 interfaces: Some(interface_meta),
-                epic_auth: None,
+                epic_auth: rpc_path.epic_auths.map(metadata::epic::EpicAuths::from_rpc),
                 notes,
             }
         };
@@ -522,8 +522,13 @@ impl ScionPath {
                     })
                     .collect();
 
+                // One entry per link between consecutive interfaces (N-1 entries for N
+                // interfaces), the last interface has no next interface.
+                let link_count = if_meta.len().saturating_sub(1);
+
                 rpc_path.latency = if_meta
                     .iter()
+                    .take(link_count)
                     .map(|latency| {
                         match latency.latency {
                             Some(latency) => {
@@ -547,6 +552,7 @@ impl ScionPath {
 
                 rpc_path.bandwidth = if_meta
                     .iter()
+                    .take(link_count)
                     .map(|meta| meta.bandwidth.unwrap_or(0))
                     .collect();
 
@@ -560,15 +566,37 @@ impl ScionPath {
                     })
                     .collect();
 
+                // One entry per inter-AS link: the links leaving the interfaces at the even
+                // indices. Only supplied if known for all inter-AS links.
                 rpc_path.link_type = if_meta
                     .iter()
+                    .step_by(2)
                     .map(|meta| {
                         match &meta.link {
-                            Some(LinkMeta::Egress(link_type)) => link_type.to_i32(),
-                            _ => LinkType::Unset.to_i32(),
+                            Some(LinkMeta::Egress(link_type)) => Some(link_type.to_i32()),
+                            _ => None,
                         }
                     })
-                    .collect();
+                    .collect::<Option<Vec<_>>>()
+                    .unwrap_or_default();
+
+                // One entry per fully traversed AS: the links leaving the interfaces at the odd
+                // indices, except the last interface. Only supplied if known for all of them.
+                rpc_path.internal_hops = if_meta
+                    .iter()
+                    .skip(1)
+                    .step_by(2)
+                    .take((if_meta.len() / 2).saturating_sub(1))
+                    .map(|meta| {
+                        match &meta.link {
+                            Some(LinkMeta::Ingress { internal_hop_count }) => {
+                                Some(*internal_hop_count)
+                            }
+                            _ => None,
+                        }
+                    })
+                    .collect::<Option<Vec<_>>>()
+                    .unwrap_or_default();
 
                 // collect notes if available, must be one per AS (total_interfaces / 2 + 1)
                 let expected_count_ases = if_meta.len() / 2 + 1;
